@@ -378,6 +378,10 @@ Proof.
       apply (proj1 (Forall_forall _ _) IH (k, vp) Hin). reflexivity.
 Qed.
 
+Theorem children_do_not_evaluate_root : forall j p e en rep tr,
+  root_free e = true -> exec (expand j p e) en = Some (rep, tr) -> cnt is_root_ev tr = 0.
+Proof. intros j p e en rep tr He H. eapply exec_root_free; [apply expand_root_free; exact He|exact H]. Qed.
+
 (* ---- how often the asserted expression itself is evaluated -------------------- *)
 
 (* forms that are meant to evaluate the expression they are handed exactly once *)
